@@ -95,7 +95,15 @@ sexp kit_alloc_tagged(size_t bytes, sexp_uint_t tag) {
 }
 
 #ifndef KIT_REAL_GC
-void *sexp_alloc(sexp ctx, size_t size) { return kit_alloc_words(size); }
+/* the only caller of the bare allocator in the tree is sexp_make_bytes_op (via sexp_alloc_atomic):
+   give it the byte-exact bytes layout; anything else falls back to generic words */
+void *sexp_alloc(sexp ctx, size_t size) {
+#ifndef KIT_NATIVE
+  void *res = kit_typed_object(size, SEXP_BYTES);
+  if (res) return res;
+#endif
+  return kit_alloc_words(size);
+}
 #endif
 
 /* the five-line tag-setting wrapper of sexp.c; modelled here in every harness so that the payload
